@@ -222,6 +222,7 @@ const (
 type c02 struct {
 	r               *Rec
 	w               *World
+	cfgN            int // ambient configuration counter (see end)
 	priv            []*secp256k1.PrivKey
 	ecd             []*ecdsa.PrivateKey
 	ethHash         map[string]string // sender -> Hash field of its last genuine Ethereum transaction
@@ -352,6 +353,19 @@ func (h *c02) begin() {
 
 func (h *c02) end() {
 	w := h.w
+	// ambient configuration for the NEXT block: the token black/whitelist switches and the foreign-fee switch rotate
+	// through all combinations. None of them concerns authentication (every transaction here moves and pays ukex, which
+	// is never frozen): whatever they are set to, the verdicts must be the ones the model gives.
+	h.cfgN++
+	{
+		ctx := h.ctx()
+		p := w.app.CustomGovKeeper.GetNetworkProperties(ctx)
+		p.EnableTokenBlacklist, p.EnableTokenWhitelist, p.EnableForeignFeePayments = h.cfgN%4 == 0 || h.cfgN%4 == 2, h.cfgN%4 >= 2, h.cfgN%8 < 4
+		if err := w.app.CustomGovKeeper.SetNetworkProperties(ctx, p); err != nil {
+			panic(err)
+		}
+		h.r.Count(fmt.Sprintf("ambient:bl=%v,wl=%v,foreign=%v", p.EnableTokenBlacklist, p.EnableTokenWhitelist, p.EnableForeignFeePayments))
+	}
 	eb := w.app.EndBlock(abci.RequestEndBlock{Height: w.height})
 	if err := w.ApplyUpdates(eb.ValidatorUpdates); err != nil {
 		panic(err)
